@@ -176,6 +176,48 @@ macro_rules! vec_like {
                     d.configs += 1;
                 }
             }
+            // ... and through every mutable range view that contains the slot: a..b, ..b, a.., .. (the full prefix ..N and
+            // the empty ranges included: a valid range must not panic on the write path either)
+            for slot in 0..N {
+                for a in 0..=slot {
+                    for b in slot + 1..=N {
+                        for kind in 0..4 {
+                            if (kind == 1 && a != 0) || (kind == 2 && b != N) || (kind == 3 && (a != 0 || b != N)) {
+                                continue;
+                            }
+                            let mut model = t.clone();
+                            model[slot] = fresh[slot].clone();
+                            let val = fresh[slot].clone();
+                            let start = v.clone();
+                            let res = catches(move || {
+                                let mut m = start;
+                                let len = {
+                                    let s: &mut [E] = match kind {
+                                        0 => &mut m[a..b],
+                                        1 => &mut m[..b],
+                                        2 => &mut m[a..],
+                                        _ => &mut m[..],
+                                    };
+                                    s[slot - a] = val;
+                                    s.len()
+                                };
+                                (m, len)
+                            });
+                            let what = match kind { 0 => format!("[{}..{}]", a, b), 1 => format!("[..{}]", b), 2 => format!("[{}..]", a), _ => "[..]".to_string() };
+                            ensure_r!(res.is_ok(), "range-mut-in-range-panics", "&mut {}{} panics although the range is inside the {} components", who, what, N);
+                            let (m, len) = res.ok().unwrap();
+                            ensure_r!(len == b - a, "range-mut-length", "&mut {}{} has {} elements", who, what, len);
+                            ensure_r!(fields(&m) == model, "write-not-visible-fields", "{}: write through &mut {} at slot {} not visible through fields: {:?}", who, what, slot, fields(&m));
+                            d.configs += 1;
+                        }
+                    }
+                }
+            }
+            for a in 0..=N {
+                let (s1, s2) = (v.clone(), v.clone());
+                ensure_r!(catches(move || { let mut m = s1; (&mut m[a..a]).len() + (&mut m[..a]).len() }).ok() == Some(a), "range-mut-in-range-panics", "&mut {}[{}..{}] / [..{}]: wrong length or panic", who, a, a, a);
+                ensure_r!(catches(move || { let mut m = s2; (&mut m[a..]).len() }).ok() == Some(N - a), "range-mut-in-range-panics", "&mut {}[{}..]: wrong length or panic", who, a);
+            }
             {
                 let mut tm = tup.clone();
                 let r: &mut $V<E> = From::from(&mut tm);
@@ -546,6 +588,34 @@ fn numeric<E: Elem + cgmath::BaseNum>(d: &mut Draw) -> Outcome {
             model[slot] = t[4];
             ensure!(vec![w.v.x, w.v.y, w.v.z, w.s] == model, "quaternion-write-not-visible", "Quaternion: write through view {} at slot {} landed elsewhere: {:?}", view, slot, w);
             d.configs += 1;
+        }
+    }
+    // and through every mutable range view containing the slot (the full prefix and full range included)
+    for slot in 0..4usize {
+        for a in 0..=slot {
+            for b in slot + 1..=4usize {
+                for kind in 0..4 {
+                    if (kind == 1 && a != 0) || (kind == 2 && b != 4) || (kind == 3 && (a != 0 || b != 4)) {
+                        continue;
+                    }
+                    let val = t[4];
+                    let res = catches(move || {
+                        let mut w = q;
+                        let len = {
+                            let s: &mut [E] = match kind { 0 => &mut w[a..b], 1 => &mut w[..b], 2 => &mut w[a..], _ => &mut w[..] };
+                            s[slot - a] = val;
+                            s.len()
+                        };
+                        (w, len)
+                    });
+                    ensure!(res.is_ok(), "range-mut-in-range-panics", "a mutable range view (kind {}) of Quaternion over {}..{} panics", kind, a, b);
+                    let (w, len) = res.ok().unwrap();
+                    let mut model = want.clone();
+                    model[slot] = t[4];
+                    ensure!(len == b - a && vec![w.v.x, w.v.y, w.v.z, w.s] == model, "quaternion-write-not-visible", "Quaternion: write through the mutable range view (kind {}) over {}..{} at slot {} landed elsewhere: {:?}", kind, a, b, slot, w);
+                    d.configs += 1;
+                }
+            }
         }
     }
     // conv helpers
